@@ -125,9 +125,21 @@ def run(ck):
     pmf = mod.func('_patch_modification')
     ck.analysed(mod, pmf)
     na = single_def(pmf, 'non_anchor')
-    zips = [c for c in walk_local(pmf) if isinstance(c, ast.Call) and call_name(c) == 'zip' and c.args and 'range(' in u(c.args[1] if len(c.args) > 1 else c.args[0])]
-    ok = na is not None and isinstance(na, ast.Call) and call_name(na) in ('nx.subgraph', 'networkx.subgraph') and len(na.args) == 2 and len(zips) == 1 and \
-        u(zips[0].args[0]) == u(na.args[1]) and 'nx.disjoint_union(block, non_anchor)' in u(pmf)
+    ok = na is not None and isinstance(na, ast.Call) and call_name(na) in ('nx.subgraph', 'networkx.subgraph') and len(na.args) == 2 and 'nx.disjoint_union(block, non_anchor)' in u(pmf)
+    if ok:
+        # the numbering statements (between the inverse table and the union) are interpreted on a sample: added atom k gets index len(block) + k
+        from .. import interp
+        coll = u(na.args[1])
+        i0 = next((i for i, s_ in enumerate(pmf.body) if isinstance(s_, ast.Assign) and u(s_.targets[0]) == 'mod_to_block'), None)
+        i1 = next((i for i, s_ in enumerate(pmf.body) if 'disjoint_union' in u(s_)), None)
+        ok = i0 is not None and i1 is not None and i0 < i1
+        if ok:
+            env_ = {coll: ['x', 'y', 'z'], 'block': ['a', 'b', 'c', 'd'], 'block_to_mod': {0: 'p', 2: 'q'}}
+            try:
+                interp.run_stmts(pmf.body[i0:i1], env_)
+                ok = env_.get('mod_to_block') == {'p': 0, 'q': 2, 'x': 4, 'y': 5, 'z': 6}
+            except (interp.Unsupported, interp.Returned):
+                ok = False
     ck.ob('SIB-index-space', mod.loc(pmf), ok, 'the atoms a modification adds are numbered by zipping the very collection `{}` whose subgraph view is united with the block '
           '(both enumerate the same object, so added atom k gets index len(block)+k on both sides)'.format(u(na.args[1]) if ok else '?'), key='SIB-index-space|patch_modification')
     eb = [l for l in pmf.body if isinstance(l, ast.For) and call_attr(l.iter) == 'edges_between']
@@ -213,6 +225,7 @@ def run(ck):
           '(name, element, ...; the block\'s resid excepted), so the block atom wins', key='PROV-rebuild|attributes')
     unrecognised_rules(ck, 'PROV-unrecognised')
     shared.reference_residue_rules(ck, 'PROV-reference')
+    shared.rebuilt_atom_identity(ck, 'PROV-rebuilt')
     shared.truthy_zero(ck, [RG])
     shared.runs_every_molecule(ck, 'vermouth/processors/repair_graph.py', 'RepairGraph', 'MPT-every-molecule')
     ck.assume('that the search returns a largest match and that the result is invariant under renaming/permutation depend on the ISMAGS search outcome (C06, not applicable)')
